@@ -12,6 +12,18 @@ MODULE = 'C14'
 EARLY, LATE = 'early', 'late'
 
 
+def no_udf_file(iso, sh):
+    """an ISO9660 file name whose content has no UDF name yet (its UDF link bookkeeping starts at zero)"""
+    for x in sh['files']['iso']:
+        try:
+            rec = iso.get_record(iso_path=x)
+        except Exception:
+            continue
+        if rec.inode is not None and rec.inode.num_udf == 0:
+            return x
+    return None
+
+
 def catalogue(cfg, iso, sh, rng):
     """yields (call, cause, stage, callable).  Every callable must raise PyCdlibInvalidInput on this object."""
     rr = {'rr_name': 'zz'} if cfg.rr else {}
@@ -40,6 +52,23 @@ def catalogue(cfg, iso, sh, rng):
         yield 'add_eltorito', 'bad-media-name', LATE, lambda: iso.add_eltorito(f, bootcatfile='/BCAT.;1', media_name='nosuchmedia',
                                                                               **({'rr_bootcatname': 'bcat'} if cfg.rr else {}))
         yield 'add_eltorito', 'duplicate-catalog-name', LATE, lambda: iso.add_eltorito(f, bootcatfile=f, **({'rr_bootcatname': 'bcat'} if cfg.rr else {}))
+    if files['iso'] and cfg.rr:
+        f = files['iso'][0]
+        longt = '/'.join(['t' * 60] * 5)
+        # refusals of calls whose Rock Ridge part needs a continuation area (the slot must not be taken before the refusal)
+        yield 'add_symlink', 'duplicate:iso:long-target', EARLY, lambda: iso.add_symlink(symlink_path=f, rr_symlink_name='dupsym', rr_path=longt)
+        yield 'add_symlink', 'missing-parent:iso:long-target', EARLY, lambda: iso.add_symlink(symlink_path='/NODIR/S.;1', rr_symlink_name='s' * 150,
+                                                                                            rr_path=longt)
+        yield 'add_fp', 'duplicate:iso:long-rr-name', EARLY, lambda: iso.add_fp(fp(), 5, iso_path=f, rr_name='n' * 200)
+        yield 'add_hard_link', 'duplicate-target:iso:long-rr-name', EARLY, lambda: iso.add_hard_link(iso_old_path=f, iso_new_path=f, rr_name='m' * 200)
+    if files['iso'] and cfg.udf:
+        f = sh.get('nudf') or files['iso'][0]
+        # single-namespace UDF refusals of add_hard_link (the inode's UDF bookkeeping must not move before the refusal)
+        if files['udf']:
+            yield 'add_hard_link', 'duplicate-target:udf', EARLY, lambda: iso.add_hard_link(iso_old_path=f, udf_new_path=files['udf'][0])
+            yield 'add_hard_link', 'parent-is-a-file:udf', EARLY, lambda: iso.add_hard_link(iso_old_path=f, udf_new_path=files['udf'][0] + '/x')
+        yield 'add_hard_link', 'missing-parent-target:udf', EARLY, lambda: iso.add_hard_link(iso_old_path=f, udf_new_path='/nodir/l')
+        yield 'add_hard_link', 'name-too-long:udf', EARLY, lambda: iso.add_hard_link(iso_old_path=f, udf_new_path='/' + 'u' * 300)
     if dirs['iso']:
         d = dirs['iso'][0]
         # (with Rock Ridge the record constructor bumps the parent's link counts; fix 32b487c refuses the duplicate before it)
@@ -104,6 +133,11 @@ def build_obj(cfg, ops, sizes, boot):
         return None, None
     iso = b.iso
     info = {}
+    # a file with an ISO9660 name only (its Joliet / UDF link bookkeeping starts at zero)
+    try:
+        iso.add_fp(io.BytesIO(b'iso-only'), 8, iso_path='/AAONLY.;1', **({'rr_name': 'aaonly'} if cfg.rr else {}))
+    except Exception:
+        pass
     if boot:
         rr = cfg.rr
         try:
@@ -128,11 +162,26 @@ def build_obj(cfg, ops, sizes, boot):
     return iso, info
 
 
-def further_edits(iso, cfg):
+def further_edits(iso, cfg, sh=None):
     rr = {'rr_name': 'later'} if cfg.rr else {}
     iso.add_fp(io.BytesIO(b'later-data'), 10, iso_path='/LATER.;1', **rr)
     iso.add_directory(iso_path='/LATERD', **({'rr_name': 'laterd'} if cfg.rr else {}))
     iso.rm_file(iso_path='/LATER.;1')
+    if cfg.rr:
+        # entries that need continuation areas: a slot leaked by a refused call shifts them
+        iso.add_fp(io.BytesIO(b'q'), 1, iso_path='/LATERQ.;1', rr_name='q' * 180)
+        iso.add_symlink(symlink_path='/LATERS.;1', rr_symlink_name='laters', rr_path='/'.join(['v' * 50] * 4))
+    f = sh['files']['iso'][0] if sh and sh['files']['iso'] else None
+    if f and cfg.udf:
+        f = sh.get('nudf') or f
+        # UDF link bookkeeping of the file the refused calls referred to
+        iso.add_hard_link(iso_old_path=f, udf_new_path='/laterkept')      # stays: a leaked count shows in the space needed
+        iso.add_hard_link(iso_old_path=f, udf_new_path='/laterlnk')
+        iso.rm_hard_link(udf_path='/laterlnk')
+    if f and cfg.joliet:
+        iso.add_hard_link(iso_old_path=f, joliet_new_path='/laterjkept')
+        iso.add_hard_link(iso_old_path=f, joliet_new_path='/laterjl')
+        iso.rm_hard_link(joliet_path='/laterjl')
 
 
 def run(ctx):
@@ -153,9 +202,10 @@ def run(ctx):
         try:
             sh = shadow_of(base, cfg)
             sh.update(info)
+            sh['nudf'] = no_udf_file(base, sh) if cfg.udf else None
             causes = [(call, cause, stage) for call, cause, stage, _ in catalogue(cfg, base, sh, rng)]
             ref_img, _ = sysimg.master(base)
-            further_edits(base, cfg)
+            further_edits(base, cfg, sh)
             ref_img2, _ = sysimg.master(base)
         except Exception as e:
             ctx.count('base-fails:' + type(e).__name__)
@@ -171,6 +221,7 @@ def run(ctx):
             try:
                 sh2 = shadow_of(fork, cfg)
                 sh2.update(info2)
+                sh2['nudf'] = no_udf_file(fork, sh2) if cfg.udf else None
                 item = [x for x in catalogue(cfg, fork, sh2, rng)][k]
                 ctx.case(('fork', cfg.key(), call, cause, i), True)
                 ctx.count('cause:%s:%s' % (call, cause.split(':')[0]))
@@ -193,7 +244,7 @@ def run(ctx):
                         what = 'the image written next differs from the image without the call (first difference at byte %s, lengths %d / %d)' \
                                % (d, len(img), len(ref_img))
                     else:
-                        further_edits(fork, cfg)
+                        further_edits(fork, cfg, sh2)
                         img2, _ = sysimg.master(fork)
                         if img2 != ref_img2:
                             what = 'later edits behave differently: the image after three further edits differs'
